@@ -1523,3 +1523,18 @@ TABLE["C16"] += [
     B("matlab-gateway-file-renamed", {"Y8"}, (MW, "        return self.module_name + '_wrapper'", "        return self.module_name + '_gateway'")),
     N("cmake-comment-added", ("cmake/PybindWrap.cmake", "  # Convert .i file names to .cpp file names.", "  # Convert .i file names to .cpp file names (--not-an-option in a comment).")),
 ]
+
+# shape of named results (C01 G13)
+TABLE["C01"] += [
+    B("class-base-kept-in-its-wrapper", {"G13"},
+      (IP + "classes.py", "            if isinstance(parent_class, Iterable):\n                parent_class = parent_class[0]  # type: ignore\n", "")),
+    B("argument-type-kept-in-its-wrapper", {"G13"},
+      (IP + "function.py", "        if isinstance(ctype, Iterable):\n            self.ctype = ctype[0]  # type: ignore\n        else:\n            self.ctype = ctype\n", "        self.ctype = ctype\n")),
+    B("forward-declaration-base-as-alternation", {"G13"},
+      (IP + "declaration.py", "from .type import Typename", "from .type import TemplatedType, Typename"),
+      (IP + "declaration.py", "            Optional(COLON + Typename.rule(\"parent_type\")) +", "            Optional(COLON + (TemplatedType.rule ^ Typename.rule)(\"parent_type\")) +")),
+    N("forward-declaration-base-as-alternation-unwrapped",
+      (IP + "declaration.py", "from .type import Typename", "from .type import TemplatedType, Typename"),
+      (IP + "declaration.py", "            Optional(COLON + Typename.rule(\"parent_type\")) +", "            Optional(COLON + (TemplatedType.rule ^ Typename.rule)(\"parent_type\")) +"),
+      (IP + "declaration.py", "        if parent_type:\n            self.parent_type = parent_type\n", "        if parent_type:\n            parent_type = parent_type[0]\n            if isinstance(parent_type, TemplatedType):\n                parent_type = parent_type.typename\n            self.parent_type = parent_type\n")),
+]
